@@ -377,9 +377,32 @@ fn nf(t: &Term, lim: usize) -> Option<Term> {
     }
 }
 
+/// step-wise normal-order run on the implementation with a size cap: Some(steps) if a normal form is reached
+/// within the caps.  Payloads are arbitrary terms, so a law instance may diverge or explode; such instances are
+/// skipped (counted), never executed with a large budget.
+fn safe_steps(t: &Term, max_steps: usize, max_size: usize) -> Option<usize> {
+    let mut u = t.clone();
+    for k in 0..max_steps {
+        if u.reduce(NOR, 1) == 0 {
+            return Some(k);
+        }
+        if crate::codec::size(&u) > max_size {
+            return None;
+        }
+    }
+    None
+}
+
 /// both sides of an equation must have the same normal form (NOR, budgeted); recorded as two ops
 fn check_eq(ctx: &mut Ctx, what: &str, lhs: &Term, rhs: &Term) {
-    let bgt = 20000;
+    let (k1, k2) = match (safe_steps(lhs, 3000, 4000), safe_steps(rhs, 3000, 4000)) {
+        (Some(a), Some(b)) => (a, b),
+        _ => {
+            ctx.count("law_instance_skipped_diverging_or_exploding_payload");
+            return;
+        }
+    };
+    let bgt = k1.max(k2) + 10;
     let l1 = reduce_op(NOR, bgt, lhs);
     let r1 = ctx.op(&l1);
     ctx.nontrivial(&l1);
